@@ -17,7 +17,7 @@ Line-protocol driver for C02 (`sqfsmodel c02`).  One operation per input line, o
   mtime <sde-hex|none> <defaults-mtime|-> <keep 0|1> <input mtime> → <superblock mtime> <inode mtime>
   runx <variant 0|1> <B> <mb> <bc> <hbits> <toy|none|toyf> <pre-hex> <nops> (f <flags-dec> <data-hex> | m <flags-dec> <data-hex> | s)×nops
         an API script (`Sqfs/Model/BlockProcFail.lean`): `f` = a file, `m` = `sqfs_block_processor_submit_block`, `s` =
-        `sqfs_block_processor_sync`; variant 0 = current `sync`, 1 = repaired `sync` (returns the pool status);
+        `sqfs_block_processor_sync`; variant 1 = the current `sync` (ends with `get_status`, /repo 69db961), 0 = the `sync` before it (drain only);
         codec `toyf` = the toy codec failing with SQFS_ERROR_COMPRESSOR on blocks that start with 0xEE, on the serial pool
         → as `run`, or `err <C error code>`
   hi <n> (<ret>:<hash-hex>/<ret>:<hash-hex>/<ret>:<hash-hex>/<rt 0|1>)×n
